@@ -1,14 +1,16 @@
 package main
 
-// E6 — evaluation of extracted decision functions.
+// E6 — evaluation of extracted decision / transition functions over abstract
+// values.
 //
-// A pure, loop-free function of package mq (WellFormed predicates, flag
-// accessors, QoS decoders, toggles) is a decision tree over its inputs: the
-// fields it loads and its scalar parameters.  evalPure walks that tree for one
-// assignment of values to the inputs; the callers enumerate all assignments of
-// the (small, finite) abstract domain of the atoms and compare the outcome
-// with the rule from the specification.  No code of the library is run: the
-// SSA form is the formula being evaluated.
+// A pure function of package mq (WellFormed predicates, flag accessors,
+// setters, and — with the wire primitives replaced by their contracts — the
+// packet encoders and decoders) is evaluated on the SSA form for one
+// assignment of abstract values to its inputs: the receiver fields it loads
+// and its parameters.  Callers enumerate the finite abstract domain of the
+// atoms the rule at hand depends on and compare outcomes with the rule.  No
+// library code is run; the SSA form is the formula being evaluated, strings
+// and byte slices are represented by length and identity only.
 
 import (
 	"fmt"
@@ -20,11 +22,16 @@ import (
 )
 
 type sv struct {
-	k    byte   // 'i' int, 'b' bool, 'p' pointer, 's' slice/string, 'n' non-nil opaque, 'z' nil, 'S' struct/array value by reference, 'c' closure, 'u' unknown
+	k    byte   // 'i' int, 'b' bool, 'p' pointer, 's' slice/string, 'I' non-nil interface, 'z' nil interface, 'S' aggregate by reference, 'c' closure, 'm' map, 't' tuple, 'u' unknown
 	i    int64  // integer value; length for 's'
-	b    bool   // boolean value
-	addr string // 'p': pointee path ("" = nil); 'S': path of the aggregate
+	b    bool   // boolean value; 's': is nil
+	addr string // 'p': pointee path ("" = nil); 'S': path of the aggregate; 's': backing path / identity tag; 'm': map id
+	off  int64  // 's': index of element 0 inside the backing
 	fn   *ssa.Function
+	free []sv
+	dt   types.Type // 'I': dynamic type
+	tup  []sv       // 't': components; 'I': the wrapped value
+	src  string     // where the value was loaded from (provenance, for layout events)
 }
 
 func (v sv) String() string {
@@ -40,8 +47,8 @@ func (v sv) String() string {
 		return "&" + v.addr
 	case 's':
 		return fmt.Sprintf("len=%d", v.i)
-	case 'n':
-		return "non-nil"
+	case 'I':
+		return "iface"
 	case 'z':
 		return "nil"
 	case 'S':
@@ -52,15 +59,22 @@ func (v sv) String() string {
 
 type symInput func(path string, t types.Type) (sv, bool)
 
+type mapEntry struct{ k, v sv }
+
 type symCtx struct {
 	p            *Prog
 	input        symInput
 	mem          map[string]sv
+	maps         map[string][]mapEntry
 	steps        int
+	limit        int
 	why          string
 	seen         map[string]types.Type // input paths read (discovery)
 	allocN       int
 	opaqueNonNil map[string]bool // callees treated as "returns some non-nil pointer"
+	// hook intercepts a call before it is evaluated (static, closure or
+	// dynamically dispatched).  handled=false lets evaluation proceed.
+	hook func(c *symCtx, callee *ssa.Function, args []sv) (res []sv, handled bool, ok bool)
 }
 
 func (c *symCtx) fail(format string, a ...interface{}) bool {
@@ -89,6 +103,13 @@ func truncInt(v int64, t types.Type, sizes types.Sizes) int64 {
 
 func (c *symCtx) read(path string, t types.Type) (sv, bool) {
 	if v, ok := c.mem[path]; ok {
+		if v.k == 'S' && v.addr != "" && v.addr != path {
+			switch t.Underlying().(type) {
+			case *types.Struct, *types.Array:
+			default:
+				return c.read(v.addr, t) // an aliased scalar element
+			}
+		}
 		return v, true
 	}
 	if c.seen != nil {
@@ -98,6 +119,9 @@ func (c *symCtx) read(path string, t types.Type) (sv, bool) {
 	if !ok {
 		c.fail("no value for input %s (%s)", path, typeStr(t))
 		return sv{}, false
+	}
+	if v.src == "" {
+		v.src = path
 	}
 	return v, true
 }
@@ -116,8 +140,10 @@ func zeroOf(t types.Type, path string) sv {
 		}
 	case *types.Slice:
 		return sv{k: 's', b: true}
-	case *types.Pointer, *types.Map, *types.Signature, *types.Chan:
+	case *types.Pointer, *types.Signature, *types.Chan:
 		return sv{k: 'p'}
+	case *types.Map:
+		return sv{k: 'm'}
 	case *types.Interface:
 		return sv{k: 'z'}
 	case *types.Struct, *types.Array:
@@ -126,14 +152,26 @@ func zeroOf(t types.Type, path string) sv {
 	return sv{k: 'u'}
 }
 
+// allocation names are unique across contexts, so that memories of different
+// evaluations can be combined without collisions
+var symAllocCounter int
+
+func (c *symCtx) fresh(prefix string) string {
+	symAllocCounter++
+	return fmt.Sprintf("%s:%d", prefix, symAllocCounter)
+}
+
 // evalPure evaluates fn on args.  ok=false when the function leaves the
-// supported fragment (loops, impure calls, unknown values in conditions).
+// supported fragment.
 func (c *symCtx) evalPure(fn *ssa.Function, args []sv, free []sv, depth int) ([]sv, bool) {
 	if fn.Blocks == nil {
 		return nil, c.fail("%s has no body", qname(fn))
 	}
-	if depth > 8 {
+	if depth > 24 {
 		return nil, c.fail("call depth")
+	}
+	if c.limit == 0 {
+		c.limit = 200000
 	}
 	regs := map[ssa.Value]sv{}
 	for i, prm := range fn.Params {
@@ -146,8 +184,8 @@ func (c *symCtx) evalPure(fn *ssa.Function, args []sv, free []sv, depth int) ([]
 			regs[fv] = free[i]
 		}
 	}
-	frame := fmt.Sprintf("%s#%d", fn.Name(), c.allocN)
-	c.allocN++
+	frame := c.fresh("A:" + fn.Name())
+	iterPos := map[*ssa.Range]int{}
 	get := func(v ssa.Value) (sv, bool) {
 		if r, ok := regs[v]; ok {
 			return r, true
@@ -161,45 +199,63 @@ func (c *symCtx) evalPure(fn *ssa.Function, args []sv, free []sv, depth int) ([]
 			case constant.Bool:
 				return sv{k: 'b', b: constant.BoolVal(x.Value)}, true
 			case constant.Int:
-				i, _ := constant.Int64Val(x.Value)
-				if u, ok := constant.Uint64Val(x.Value); ok && i == 0 && u != 0 {
-					i = int64(u)
+				i, exact := constant.Int64Val(x.Value)
+				if !exact {
+					if u, ok := constant.Uint64Val(x.Value); ok {
+						i = int64(u)
+					}
 				}
 				return sv{k: 'i', i: truncInt(i, x.Type(), c.p.U.Sizes)}, true
 			case constant.String:
-				return sv{k: 's', i: int64(len(constant.StringVal(x.Value)))}, true
+				s := constant.StringVal(x.Value)
+				return sv{k: 's', i: int64(len(s)), addr: "lit:" + s}, true
 			}
 		case *ssa.Function:
 			return sv{k: 'c', fn: x}, true
 		case *ssa.Global:
 			return sv{k: 'p', addr: "G:" + x.Name()}, true
 		}
-		return sv{}, c.fail("value %s (%T) is not available", v.Name(), v)
+		return sv{}, c.fail("value %s (%T) is not available in %s", v.Name(), v, qname(fn))
 	}
 	b := fn.Blocks[0]
 	var prev *ssa.BasicBlock
 	for {
 		cur := b
+		// phis are evaluated in parallel
+		var phiVals []sv
+		var phis []*ssa.Phi
+		for _, ins := range cur.Instrs {
+			ph, ok := ins.(*ssa.Phi)
+			if !ok {
+				break
+			}
+			for i, pb := range cur.Preds {
+				if pb == prev {
+					v, ok := get(ph.Edges[i])
+					if !ok {
+						return nil, false
+					}
+					phis = append(phis, ph)
+					phiVals = append(phiVals, v)
+				}
+			}
+		}
+		for i, ph := range phis {
+			regs[ph] = phiVals[i]
+		}
 		for _, ins := range cur.Instrs {
 			c.steps++
-			if c.steps > 20000 {
-				return nil, c.fail("step limit (loop?)")
+			if c.steps > c.limit {
+				return nil, c.fail("step limit (non-terminating loop?) in %s", qname(fn))
 			}
 			switch x := ins.(type) {
-			case *ssa.DebugRef:
-			case *ssa.Phi:
-				for i, pb := range cur.Preds {
-					if pb == prev {
-						v, ok := get(x.Edges[i])
-						if !ok {
-							return nil, false
-						}
-						regs[x] = v
-					}
-				}
+			case *ssa.DebugRef, *ssa.Phi:
 			case *ssa.Alloc:
-				path := fmt.Sprintf("A:%s:%s", frame, x.Name())
+				path := frame + ":" + x.Name()
 				pt := x.Type().Underlying().(*types.Pointer)
+				if x.Heap {
+					path = c.fresh("H:" + x.Name())
+				}
 				c.mem[path] = zeroOf(pt.Elem(), path)
 				regs[x] = sv{k: 'p', addr: path}
 			case *ssa.FieldAddr:
@@ -228,9 +284,9 @@ func (c *symCtx) evalPure(fn *ssa.Function, args []sv, free []sv, depth int) ([]
 						return nil, c.fail("element of an abstract slice without backing")
 					}
 					if idx.i < 0 || idx.i >= base.i {
-						return nil, c.fail("index %d out of range [0,%d)", idx.i, base.i)
+						return nil, c.fail("index %d out of range [0,%d) at %s", idx.i, base.i, c.p.Pos(ins.Pos()))
 					}
-					regs[x] = sv{k: 'p', addr: base.addr + fmt.Sprintf("[%d]", idx.i)}
+					regs[x] = sv{k: 'p', addr: fmt.Sprintf("%s[%d]", base.addr, base.off+idx.i)}
 				default:
 					return nil, c.fail("index address base")
 				}
@@ -239,7 +295,7 @@ func (c *symCtx) evalPure(fn *ssa.Function, args []sv, free []sv, depth int) ([]
 				if !ok || base.k != 'S' {
 					return nil, c.fail("field of non-aggregate value")
 				}
-				v, ok := c.read(base.addr+fmt.Sprintf(".f%d", x.Field), x.Type())
+				v, ok := c.read(c.aggPath(base.addr)+fmt.Sprintf(".f%d", x.Field), x.Type())
 				if !ok {
 					return nil, false
 				}
@@ -247,14 +303,39 @@ func (c *symCtx) evalPure(fn *ssa.Function, args []sv, free []sv, depth int) ([]
 			case *ssa.Index:
 				base, ok := get(x.X)
 				idx, ok2 := get(x.Index)
-				if !ok || !ok2 || base.k != 'S' || idx.k != 'i' {
+				if !ok || !ok2 || idx.k != 'i' {
 					return nil, c.fail("index of non-aggregate value")
 				}
-				v, ok := c.read(base.addr+fmt.Sprintf("[%d]", idx.i), x.Type())
-				if !ok {
+				if base.k == 'S' {
+					v, ok := c.read(c.aggPath(base.addr)+fmt.Sprintf("[%d]", idx.i), x.Type())
+					if !ok {
+						return nil, false
+					}
+					regs[x] = v
+				} else {
+					return nil, c.fail("index of %v", base)
+				}
+			case *ssa.Lookup:
+				base, ok := get(x.X)
+				key, ok2 := get(x.Index)
+				if !ok || !ok2 {
 					return nil, false
 				}
-				regs[x] = v
+				if base.k != 'm' {
+					return nil, c.fail("string indexing is outside the fragment")
+				}
+				found := false
+				val := zeroOf(x.X.Type().Underlying().(*types.Map).Elem(), "")
+				for _, e := range c.maps[base.addr] {
+					if e.k.k == key.k && e.k.i == key.i && e.k.b == key.b && (e.k.k != 's' || e.k.addr == key.addr) {
+						val, found = e.v, true
+					}
+				}
+				if x.CommaOk {
+					regs[x] = sv{k: 't', tup: []sv{val, {k: 'b', b: found}}}
+				} else {
+					regs[x] = val
+				}
 			case *ssa.UnOp:
 				a, ok := get(x.X)
 				if !ok {
@@ -272,6 +353,7 @@ func (c *symCtx) evalPure(fn *ssa.Function, args []sv, free []sv, depth int) ([]
 					if v.k == 'S' && v.addr == "" {
 						v.addr = a.addr
 					}
+					v.src = a.addr
 					regs[x] = v
 				case token.NOT:
 					regs[x] = sv{k: 'b', b: !a.b}
@@ -308,7 +390,7 @@ func (c *symCtx) evalPure(fn *ssa.Function, args []sv, free []sv, depth int) ([]
 					v.i = truncInt(v.i, x.Type(), c.p.U.Sizes)
 				}
 				if v.k == 's' {
-					v.b = false // string <-> []byte: fresh, same length
+					v.b = false // string <-> []byte: a copy of the same content
 				}
 				regs[x] = v
 			case *ssa.MakeInterface:
@@ -316,17 +398,49 @@ func (c *symCtx) evalPure(fn *ssa.Function, args []sv, free []sv, depth int) ([]
 				if !ok {
 					return nil, false
 				}
-				if v.k == 'p' && v.addr == "" {
-					regs[x] = sv{k: 'n'} // non-nil interface holding a nil pointer
-				} else {
-					regs[x] = sv{k: 'n', addr: v.addr}
-				}
+				regs[x] = sv{k: 'I', dt: x.X.Type(), tup: []sv{v}, src: v.src}
 			case *ssa.ChangeInterface:
 				v, ok := get(x.X)
 				if !ok {
 					return nil, false
 				}
 				regs[x] = v
+			case *ssa.TypeAssert:
+				v, ok := get(x.X)
+				if !ok {
+					return nil, false
+				}
+				match := false
+				if v.k == 'I' && v.dt != nil {
+					if it, isI := x.AssertedType.Underlying().(*types.Interface); isI {
+						match = types.Implements(v.dt, it)
+					} else {
+						match = types.Identical(v.dt, x.AssertedType)
+					}
+				}
+				var val sv
+				if match {
+					if types.IsInterface(x.AssertedType) {
+						val = v
+					} else {
+						val = v.tup[0]
+					}
+				} else {
+					val = zeroOf(x.AssertedType, "")
+				}
+				if x.CommaOk {
+					regs[x] = sv{k: 't', tup: []sv{val, {k: 'b', b: match}}}
+				} else if match {
+					regs[x] = val
+				} else {
+					return nil, c.fail("type assertion fails at %s", c.p.Pos(ins.Pos()))
+				}
+			case *ssa.Extract:
+				t, ok := get(x.Tuple)
+				if !ok || t.k != 't' || x.Index >= len(t.tup) {
+					return nil, c.fail("extract from non-tuple")
+				}
+				regs[x] = t.tup[x.Index]
 			case *ssa.MakeClosure:
 				var fr []sv
 				for _, bnd := range x.Bindings {
@@ -336,27 +450,110 @@ func (c *symCtx) evalPure(fn *ssa.Function, args []sv, free []sv, depth int) ([]
 					}
 					fr = append(fr, v)
 				}
-				regs[x] = sv{k: 'c', fn: x.Fn.(*ssa.Function), addr: c.stash(fr)}
+				regs[x] = sv{k: 'c', fn: x.Fn.(*ssa.Function), free: fr}
+			case *ssa.MakeMap:
+				id := c.fresh("M")
+				c.maps[id] = nil
+				regs[x] = sv{k: 'm', addr: id}
+			case *ssa.MapUpdate:
+				m, ok1 := get(x.Map)
+				k, ok2 := get(x.Key)
+				v, ok3 := get(x.Value)
+				if !ok1 || !ok2 || !ok3 || m.k != 'm' || m.addr == "" {
+					return nil, c.fail("map update")
+				}
+				c.maps[m.addr] = append(c.maps[m.addr], mapEntry{k, v})
+			case *ssa.Range:
+				m, ok := get(x.X)
+				if !ok || m.k != 'm' {
+					return nil, c.fail("range over a non-map value")
+				}
+				if len(c.maps[m.addr]) > 1 {
+					return nil, c.fail("range over a map with %d entries: the order is not determined", len(c.maps[m.addr]))
+				}
+				regs[x] = sv{k: 'm', addr: m.addr, i: 0, src: "iter"}
+				iterPos[x] = 0
+			case *ssa.Next:
+				it, ok := get(x.Iter)
+				if !ok || it.k != 'm' {
+					return nil, c.fail("next on a non-map iterator")
+				}
+				rng := x.Iter.(*ssa.Range)
+				ents := c.maps[it.addr]
+				k := iterPos[rng]
+				if k < len(ents) {
+					iterPos[rng] = k + 1
+					regs[x] = sv{k: 't', tup: []sv{{k: 'b', b: true}, ents[k].k, ents[k].v}}
+				} else {
+					mt := rng.X.Type().Underlying().(*types.Map)
+					regs[x] = sv{k: 't', tup: []sv{{k: 'b', b: false}, zeroOf(mt.Key(), ""), zeroOf(mt.Elem(), "")}}
+				}
+			case *ssa.MakeSlice:
+				n, ok := get(x.Len)
+				if !ok || n.k != 'i' {
+					return nil, c.fail("make with unknown length")
+				}
+				if n.i < 0 {
+					return nil, c.fail("make with negative length %d at %s", n.i, c.p.Pos(ins.Pos()))
+				}
+				regs[x] = sv{k: 's', i: n.i, addr: c.fresh("H:slice")}
+			case *ssa.Slice:
+				base, ok := get(x.X)
+				if !ok {
+					return nil, false
+				}
+				var blen int64
+				switch base.k {
+				case 's':
+					blen = base.i
+				case 'p':
+					pt, isP := x.X.Type().Underlying().(*types.Pointer)
+					if !isP {
+						return nil, c.fail("slice of pointer")
+					}
+					at, isA := pt.Elem().Underlying().(*types.Array)
+					if !isA {
+						return nil, c.fail("slice of non-array pointer")
+					}
+					blen = at.Len()
+					base = sv{k: 's', i: blen, addr: c.aggPath(base.addr)}
+				default:
+					return nil, c.fail("slice of %v", base)
+				}
+				lo, hi := int64(0), blen
+				if x.Low != nil {
+					v, ok := get(x.Low)
+					if !ok || v.k != 'i' {
+						return nil, c.fail("slice bound")
+					}
+					lo = v.i
+				}
+				if x.High != nil {
+					v, ok := get(x.High)
+					if !ok || v.k != 'i' {
+						return nil, c.fail("slice bound")
+					}
+					hi = v.i
+				}
+				if lo < 0 || hi < lo || hi > blen {
+					return nil, c.fail("slice bounds [%d:%d] of length %d at %s", lo, hi, blen, c.p.Pos(ins.Pos()))
+				}
+				r := base
+				r.i, r.off, r.b = hi-lo, base.off+lo, false
+				regs[x] = r
 			case *ssa.Store:
 				a, ok1 := get(x.Addr)
 				v, ok2 := get(x.Val)
 				if !ok1 || !ok2 || a.k != 'p' || a.addr == "" {
-					return nil, c.fail("store through nil/unknown pointer")
+					return nil, c.fail("store through nil/unknown pointer at %s", c.p.Pos(ins.Pos()))
 				}
-				if v.k == 'S' {
-					// aggregate copy: alias the source path (sources are never mutated in the fragment)
-					c.mem[a.addr] = v
-				} else {
-					c.mem[a.addr] = v
-				}
+				c.mem[a.addr] = v
 			case *ssa.Call:
 				r, ok := c.call(x, get, depth)
 				if !ok {
 					return nil, false
 				}
 				regs[x] = r
-			case *ssa.Extract:
-				return nil, c.fail("tuple values are outside the fragment")
 			case *ssa.If:
 				cv, ok := get(x.Cond)
 				if !ok || cv.k != 'b' {
@@ -381,8 +578,10 @@ func (c *symCtx) evalPure(fn *ssa.Function, args []sv, free []sv, depth int) ([]
 					out = append(out, v)
 				}
 				return out, true
+			case *ssa.Panic:
+				return nil, c.fail("explicit panic reached at %s", c.p.Pos(ins.Pos()))
 			default:
-				return nil, c.fail("instruction %T is outside the pure fragment (%s)", ins, c.p.Pos(ins.Pos()))
+				return nil, c.fail("instruction %T is outside the fragment (%s)", ins, c.p.Pos(ins.Pos()))
 			}
 		}
 		switch terminator(cur).(type) {
@@ -393,19 +592,15 @@ func (c *symCtx) evalPure(fn *ssa.Function, args []sv, free []sv, depth int) ([]
 	}
 }
 
-var stashes = map[string][]sv{}
-
-func (c *symCtx) stash(fr []sv) string {
-	k := fmt.Sprintf("C%d", len(stashes))
-	stashes[k] = fr
-	return k
-}
-
 // aggPath: the path under which the fields of the aggregate at addr live.  If
 // the cell holds an aggregate copied from elsewhere, follow it.
 func (c *symCtx) aggPath(addr string) string {
-	if v, ok := c.mem[addr]; ok && v.k == 'S' && v.addr != "" && v.addr != addr {
-		return v.addr
+	for i := 0; i < 8; i++ {
+		v, ok := c.mem[addr]
+		if !ok || v.k != 'S' || v.addr == "" || v.addr == addr {
+			return addr
+		}
+		addr = v.addr
 	}
 	return addr
 }
@@ -445,16 +640,31 @@ func (c *symCtx) binop(x *ssa.BinOp, a, b sv) (sv, bool) {
 			}
 		case a.k == 'b' && b.k == 'b':
 			r = (a.b == b.b) == (x.Op == token.EQL)
+		case a.k == 's' && b.k == 's' && isStringT(x.X.Type().Underlying()) && (x.Op == token.EQL || x.Op == token.NEQ):
+			// string equality: decidable for literals and for the empty string
+			switch {
+			case a.i != b.i:
+				r = x.Op == token.NEQ
+			case a.i == 0:
+				r = x.Op == token.EQL
+			case a.addr == b.addr && a.off == b.off:
+				r = x.Op == token.EQL
+			default:
+				return sv{}, c.fail("comparison of string contents")
+			}
 		default:
-			// nil comparisons
 			isNil := func(v sv) (bool, bool) {
 				switch v.k {
 				case 'p':
 					return v.addr == "", true
 				case 'z':
 					return true, true
-				case 'n', 'c':
+				case 'I':
 					return false, true
+				case 'c':
+					return v.fn == nil, true
+				case 'm':
+					return v.addr == "", true
 				case 's':
 					return v.b, true
 				}
@@ -471,7 +681,7 @@ func (c *symCtx) binop(x *ssa.BinOp, a, b sv) (sv, bool) {
 		return sv{k: 'b', b: r}, true
 	}
 	if a.k == 's' && b.k == 's' && x.Op == token.ADD {
-		return sv{k: 's', i: a.i + b.i}, true
+		return sv{k: 's', i: a.i + b.i, addr: c.fresh("cat")}, true
 	}
 	if a.k != 'i' || b.k != 'i' {
 		return sv{}, c.fail("arithmetic on %v and %v", a, b)
@@ -488,12 +698,20 @@ func (c *symCtx) binop(x *ssa.BinOp, a, b sv) (sv, bool) {
 		if b.i == 0 {
 			return sv{}, c.fail("division by zero")
 		}
-		r = a.i / b.i
+		if bt, ok := x.X.Type().Underlying().(*types.Basic); ok && bt.Info()&types.IsUnsigned != 0 {
+			r = int64(uint64(a.i) / uint64(b.i))
+		} else {
+			r = a.i / b.i
+		}
 	case token.REM:
 		if b.i == 0 {
 			return sv{}, c.fail("division by zero")
 		}
-		r = a.i % b.i
+		if bt, ok := x.X.Type().Underlying().(*types.Basic); ok && bt.Info()&types.IsUnsigned != 0 {
+			r = int64(uint64(a.i) % uint64(b.i))
+		} else {
+			r = a.i % b.i
+		}
 	case token.AND:
 		r = a.i & b.i
 	case token.OR:
@@ -516,69 +734,30 @@ func (c *symCtx) binop(x *ssa.BinOp, a, b sv) (sv, bool) {
 	return sv{k: 'i', i: truncInt(r, x.Type(), c.p.U.Sizes)}, true
 }
 
-func (c *symCtx) call(x *ssa.Call, get func(ssa.Value) (sv, bool), depth int) (sv, bool) {
-	cc := x.Common()
-	if bi, ok := cc.Value.(*ssa.Builtin); ok {
-		switch bi.Name() {
-		case "len":
-			a, ok := get(cc.Args[0])
+func (c *symCtx) callFn(callee *ssa.Function, args, free []sv, depth int) (sv, bool) {
+	if c.hook != nil {
+		if rs, handled, ok := c.hook(c, callee, args); handled {
 			if !ok {
 				return sv{}, false
 			}
-			if a.k == 's' {
-				return sv{k: 'i', i: a.i}, true
-			}
-			if a.k == 'S' {
-				if at, ok := cc.Args[0].Type().Underlying().(*types.Array); ok {
-					return sv{k: 'i', i: at.Len()}, true
-				}
-			}
-			return sv{}, c.fail("len of %v", a)
-		case "ssa:wrapnilchk":
-			return get(cc.Args[0])
+			return packResults(rs), true
 		}
-		return sv{}, c.fail("builtin %s", bi.Name())
-	}
-	var callee *ssa.Function
-	var free []sv
-	if sc := cc.StaticCallee(); sc != nil {
-		callee = sc
-		if mc, ok := cc.Value.(*ssa.MakeClosure); ok {
-			v, ok := get(mc)
-			if !ok {
-				return sv{}, false
-			}
-			free = stashes[v.addr]
-		}
-	} else if !cc.IsInvoke() {
-		v, ok := get(cc.Value)
-		if !ok || v.k != 'c' {
-			return sv{}, c.fail("dynamic call")
-		}
-		callee, free = v.fn, stashes[v.addr]
-	} else {
-		return sv{}, c.fail("interface call %s", cc.Method.Name())
 	}
 	if callee.Blocks == nil {
-		// the few external pure functions that show up in predicates
 		switch fullName(callee) {
-		case "fmt.Sprintf", "fmt.Errorf":
-			return sv{k: 'n'}, true
+		case "fmt.Sprintf", "fmt.Sprint":
+			return sv{k: 's', i: 1, addr: c.fresh("fmt")}, true
+		case "fmt.Errorf", "errors.New":
+			return sv{k: 'I', tup: []sv{{k: 'p', addr: "R:error"}}}, true
+		case "(time.Duration).String", "strconv.FormatInt", "strconv.Itoa":
+			return sv{k: 's', i: 1, addr: c.fresh("fmt")}, true
 		}
 		return sv{}, c.fail("external call %s", fullName(callee))
 	}
-	var args []sv
-	for _, a := range cc.Args {
-		v, ok := get(a)
-		if !ok {
-			return sv{}, false
-		}
-		args = append(args, v)
-	}
 	// constructors of error values: only their non-nil-ness matters
-	if callee.Signature.Results().Len() == 1 {
+	if callee.Signature.Results().Len() == 1 && c.opaqueNonNil[callee.Name()] {
 		if _, isPtr := callee.Signature.Results().At(0).Type().Underlying().(*types.Pointer); isPtr {
-			if rs := c.p.retSummary(callee); len(rs.nonNil) == 1 && rs.nonNil[0] && c.opaqueNonNil[callee.Name()] {
+			if rs := c.p.retSummary(callee); len(rs.nonNil) == 1 && rs.nonNil[0] {
 				return sv{k: 'p', addr: "R:" + callee.Name()}, true
 			}
 		}
@@ -587,16 +766,128 @@ func (c *symCtx) call(x *ssa.Call, get func(ssa.Value) (sv, bool), depth int) (s
 	if !ok {
 		return sv{}, false
 	}
-	if len(rs) == 0 {
-		return sv{k: 'u'}, true
+	return packResults(rs), true
+}
+
+func packResults(rs []sv) sv {
+	switch len(rs) {
+	case 0:
+		return sv{k: 'u'}
+	case 1:
+		return rs[0]
 	}
-	if len(rs) > 1 {
-		return sv{}, c.fail("multi-result call")
+	return sv{k: 't', tup: rs}
+}
+
+func (c *symCtx) call(x *ssa.Call, get func(ssa.Value) (sv, bool), depth int) (sv, bool) {
+	cc := x.Common()
+	var args []sv
+	for _, a := range cc.Args {
+		v, ok := get(a)
+		if !ok {
+			return sv{}, false
+		}
+		args = append(args, v)
 	}
-	return rs[0], true
+	if bi, ok := cc.Value.(*ssa.Builtin); ok {
+		switch bi.Name() {
+		case "len", "cap":
+			a := args[0]
+			switch a.k {
+			case 's':
+				return sv{k: 'i', i: a.i}, true
+			case 'm':
+				return sv{k: 'i', i: int64(len(c.maps[a.addr]))}, true
+			case 'S':
+				if at, ok := cc.Args[0].Type().Underlying().(*types.Array); ok {
+					return sv{k: 'i', i: at.Len()}, true
+				}
+			}
+			return sv{}, c.fail("len of %v", a)
+		case "ssa:wrapnilchk":
+			if args[0].k == 'p' && args[0].addr == "" {
+				return sv{}, c.fail("nil receiver of a value method")
+			}
+			return args[0], true
+		case "append":
+			s := args[0]
+			if len(args) == 1 {
+				return s, true
+			}
+			e := args[1]
+			if s.k != 's' || e.k != 's' {
+				return sv{}, c.fail("append")
+			}
+			id := c.fresh("H:app")
+			for k := int64(0); k < s.i; k++ {
+				c.aliasElem(fmt.Sprintf("%s[%d]", id, k), fmt.Sprintf("%s[%d]", s.addr, s.off+k), s.addr != "")
+			}
+			for k := int64(0); k < e.i; k++ {
+				c.aliasElem(fmt.Sprintf("%s[%d]", id, s.i+k), fmt.Sprintf("%s[%d]", e.addr, e.off+k), e.addr != "")
+			}
+			return sv{k: 's', i: s.i + e.i, addr: id}, true
+		case "copy":
+			n := args[0].i
+			if args[1].i < n {
+				n = args[1].i
+			}
+			return sv{k: 'i', i: n}, true
+		}
+		return sv{}, c.fail("builtin %s", bi.Name())
+	}
+	if cc.IsInvoke() {
+		recv, ok := get(cc.Value)
+		if !ok {
+			return sv{}, false
+		}
+		if recv.k != 'I' || recv.dt == nil {
+			return sv{}, c.fail("method %s called on %v at %s", cc.Method.Name(), recv, c.p.Pos(x.Pos()))
+		}
+		sel := c.p.Prog.MethodSets.MethodSet(recv.dt).Lookup(cc.Method.Pkg(), cc.Method.Name())
+		if sel == nil {
+			return sv{}, c.fail("no method %s on %s", cc.Method.Name(), typeStr(recv.dt))
+		}
+		callee := c.p.Prog.MethodValue(sel)
+		if callee == nil {
+			return sv{}, c.fail("abstract method")
+		}
+		return c.callFn(callee, append([]sv{recv.tup[0]}, args...), nil, depth)
+	}
+	if sc := cc.StaticCallee(); sc != nil {
+		var free []sv
+		if mc, ok := cc.Value.(*ssa.MakeClosure); ok {
+			v, ok := get(mc)
+			if !ok {
+				return sv{}, false
+			}
+			free = v.free
+		}
+		return c.callFn(sc, args, free, depth)
+	}
+	v, ok := get(cc.Value)
+	if !ok {
+		return sv{}, false
+	}
+	if v.k != 'c' || v.fn == nil {
+		return sv{}, c.fail("call of a nil/unknown function value at %s", c.p.Pos(x.Pos()))
+	}
+	return c.callFn(v.fn, args, v.free, depth)
+}
+
+// aliasElem makes element path dst denote what src denotes (values are copied
+// if present, aggregates are aliased).
+func (c *symCtx) aliasElem(dst, src string, has bool) {
+	if !has {
+		return
+	}
+	if v, ok := c.mem[src]; ok {
+		c.mem[dst] = v
+		return
+	}
+	c.mem[dst] = sv{k: 'S', addr: src}
 }
 
 // newSym creates an evaluation context.
 func (p *Prog) newSym(input symInput) *symCtx {
-	return &symCtx{p: p, input: input, mem: map[string]sv{}, seen: map[string]types.Type{}, opaqueNonNil: map[string]bool{}}
+	return &symCtx{p: p, input: input, mem: map[string]sv{}, maps: map[string][]mapEntry{}, seen: map[string]types.Type{}, opaqueNonNil: map[string]bool{}}
 }
